@@ -13,6 +13,7 @@ mkdir -p "$vf"; rsync -a --exclude work --exclude .git --exclude evidence --excl
 sed -i "s|path = \"/repo\"|path = \"$wt\"|" "$vf/harness/Cargo.toml"
 for p in "$@"; do
   out=$(cd "$vf" && VERIF_REPO="$wt" VERIF_CACHE=/verif/work/cache VERIF_TLC_WORKERS=4 ./check "$p" 2>&1); rc=$?
+  [ -n "$SEEDRUN_FULL" ] && echo "$out" > "/verif/work/seed_results/$name-$p.full"
   echo "== $name $p rc=$rc"; echo "      violation_lines=$(echo "$out" | grep -c '^VIOLATION')"
   echo "$out" | grep -E "KNOWN|TOOL-ERROR|OK property|^  " | cut -c1-260 | sort | uniq -c | sort -rn | head -8
 done
